@@ -77,7 +77,8 @@ async def scenario(net, hyg, plan):
     users.append(aioftp.User("b", None, base_path="/", maximum_connections=plan["ulimits"].get("b")))
     w = W.World(net, users=users)
     um = SlowManager(users, plan["slow_manager"]) if plan.get("slow_manager") else users
-    w.server = BoomServer(um, path_io_factory=w.factory, maximum_connections=smax, idle_timeout=plan.get("idle_timeout"))
+    w.server = BoomServer(um, path_io_factory=w.factory, maximum_connections=smax, idle_timeout=plan.get("idle_timeout"),
+                          write_speed_limit=plan.get("write_speed_limit"))
     AC = getattr(aioftp.server, "AvailableConnections", None)
     if AC is None or not hasattr(AC, "acquire") or not hasattr(AC, "release"):
         class AC:  # the counter class is gone: the contract is skipped, the black-box checks remain
@@ -382,6 +383,13 @@ def gen_cases(tier, seed):
                       "plan": {"seed": seed, "server_limit": 2, "ulimits": {"a": 1, "b": 1}, "anonymous": False, "slow_manager": 0.003,
                                "scripts": [sc + [["cmd", "USER boomuser"]], [["connect"], ["cmd", "USER a"], ["sleep", 0.05], ["quit"]]],
                                "offsets": [0, 0.0031]}})
+    # slow reply writer (server-wide write limit): the session ends while replies are still queued behind the throttle
+    for sc in scripts + [[["connect"], ["cmd", "USER a"], ["cmd", "PASS pa"], ["quit"]]]:
+        for smax, ul in ((1, {"a": 1}), (2, {"a": 1, "b": 1})):
+            cases.append({"kind": "enum", "actions": ["rst", "fin"], "who": 0,
+                          "plan": {"seed": seed, "server_limit": smax, "ulimits": ul, "anonymous": False, "write_speed_limit": 150,
+                                   "scripts": [sc, [["connect"], ["cmd", "USER b"], ["sleep", 0.05], ["quit"]]],
+                                   "offsets": [0, 0.0031]}})
     for i in range(60 if tier == "quick" else 1500):
         m = rng.randint(2, 5)
         cases.append({"kind": "single", "plan": {
